@@ -70,8 +70,8 @@ def factories(rng):
                                          ResidualFSQ, ResidualLFQ, LatentQuantize, GroupedResidualFSQ, GroupedResidualLFQ)
     F = []
 
-    def add(name, mk, dim, freeze=False, decode=None, image=False, has_cb=False, stochastic=False, kmeans=False):
-        F.append(dict(name=name, mk=mk, dim=dim, freeze=freeze, decode=decode, image=image, has_cb=has_cb, stochastic=stochastic, kmeans=kmeans))
+    def add(name, mk, dim, freeze=False, decode=None, image=False, has_cb=False, stochastic=False, kmeans=False, mkx=None):
+        F.append(dict(name=name, mk=mk, dim=dim, freeze=freeze, decode=decode, image=image, has_cb=has_cb, stochastic=stochastic, kmeans=kmeans, mkx=mkx))
     dec_vq = lambda m, idx: m.get_output_from_indices(idx)
     add('vq-ema', lambda: VectorQuantize(dim=4, codebook_size=6, decay=0.5), 4, True, dec_vq, has_cb=True)
     add('vq-cosine', lambda: VectorQuantize(dim=4, codebook_size=6, use_cosine_sim=True, decay=0.75), 4, True, dec_vq, has_cb=True)
@@ -118,6 +118,12 @@ def factories(rng):
     for zname, zc, zkw in zoo.configs():
         add(zname, (lambda zkw=zkw: VectorQuantize(**zkw())), zkw()['dim'], True, dec_vq if zc['heads'] == '1' else None, has_cb=True,
             stochastic=zc['sampling'] != 'argmax', kmeans=zc['init'] == 'kmeans')
+    # all-pairs sets of the other exported classes (FSQ / LFQ options; residual stacks: class x depth x dropout options x projection x layout)
+    for kind in ('fsq', 'lfq', 'res'):
+        for zname, zc, zmk in zoo.class_configs(kind):
+            sto = bool(zc.get('noise')) or zc.get('frac', 1.0) < 1.0 or bool(zc.get('dropout'))
+            dec = (lambda m, idx: m.indices_to_codes(idx)) if kind in ('fsq', 'lfq') else dec_vq
+            add(zname, zmk, zoo.zoo_dim(kind, zc), kind == 'res' and zc['cls'] == 'rvq', dec, stochastic=sto, mkx=(lambda kind=kind, zc=zc: zoo.zoo_input(kind, zc, torch)))
     return F
 
 
@@ -167,7 +173,7 @@ def correspond(ctx, scale):
             last_idx = None
             trace = []
             for oi, op in enumerate(ops):
-                x = torch.randn(2, f['dim'], 3) if f['image'] else torch.randn(2, 4, f['dim'])
+                x = f['mkx']() if f.get('mkx') else (torch.randn(2, f['dim'], 3) if f['image'] else torch.randn(2, 4, f['dim']))
                 if rng.random() < 0.3:
                     x = x * rng.choice([0.0, 1e-3, 10.0])
                 before = blob(mod)
@@ -248,7 +254,7 @@ def correspond(ctx, scale):
         failures.append({'key': f'{m["name"]}:{m["op"]}:model-state-differs:{code}', 'what': f'{m["name"]}: the model (pure step = identity) and the implementation disagree on the state after "{m["op"]}" (component {code}); history {m["ops"]}',
                          'case': dict(m, term=cases[i][:30000])})
     return {'evaluations': evaluations, 'distinct_nontrivial': nontrivial,
-            'rule': 'random walks over {train, eval, frozen, decode} x 39 hand-written + 16 all-pairs (vlib/zoo.py) module configurations; state_dict + parameters + buffers compared bit-exactly around every pure operation, pure calls repeated; '
+            'rule': 'random walks over {train, eval, frozen, decode} x 39 hand-written + 54 all-pairs (vlib/zoo.py: VectorQuantize, FSQ, LFQ, residual stacks) module configurations; state_dict + parameters + buffers compared bit-exactly around every pure operation, pure calls repeated; '
                     'codebook-bearing pure calls also replayed through the Coq model (identity step); non-trivial = pure op executed after at least one state-changing training step',
             'samples': samples, 'failures': failures, 'distribution': dist}
 
@@ -266,7 +272,7 @@ def replay_case(ctx, case):
         mod = f['mk']()
         last_idx = None
         for op in case['ops']:
-            x = torch.randn(2, f['dim'], 3) if f['image'] else torch.randn(2, 4, f['dim'])
+            x = f['mkx']() if f.get('mkx') else (torch.randn(2, f['dim'], 3) if f['image'] else torch.randn(2, 4, f['dim']))
             before = blob(mod)
             try:
                 if op == 'decode':
